@@ -6,15 +6,12 @@ sys.path.insert(0, HERE)
 import props
 VERIF = os.path.dirname(HERE)
 
-# per property: (technique, level text, level note, design ref)
-META = {
- "C01": ("TLA+ spec PbWire (byte-vector arithmetic) model-checked by TLC; exhaustive tour of the boundary domain replayed into protowire; seeded random events validated by Trace_PbWire",
-         "TLC checks round-trip/size/minimality/bijectivity laws on the specification for every bit length 0..64 +-1 and all field-number boundaries; every enumerated case carries the specification's encoding and is replayed into Append/Consume/Size of the real code; random values are validated event by event against the same operators. Bounded-exhaustive on the corner domain plus random volume, not a proof over all 2^64 values.",
-         "Trusted: TLC, spec/lib/VB arithmetic (self-consistent laws checked), the harness's JSON byte-array plumbing.", "DESIGN.md 4.2, 5 C01"),
- "C02": ("TLA+ spec PbWireGrammar: denotational wire grammar = streaming automaton (TLC, all strings up to bound); every string replayed into ConsumeTag/Field/FieldValue/Group; mutated random fields validated by Trace_PbWire",
-         "TLC enumerates every byte string up to the bound over a 16-symbol corner alphabet, proves two independent grammar definitions equal, boundedness, prefix-closure and the nesting lemma, and emits the verdict/length/error for 5 entry points per string; the real parsers must agree on all of them and on random structure-aware mutated inputs.",
-         "Trusted: TLC, VB arithmetic. The recursion limit 10000 is reached through the nesting lemma (checked for limits 0..4) rather than by enumeration.", "DESIGN.md 4.2, 5 C02"),
-}
+# per property metadata lives in tools/meta/<family>.json: {"Cxx": {"technique", "text", "note", "ref"}}
+import glob
+META = {}
+for _p in sorted(glob.glob(os.path.join(HERE, "meta", "*.json"))):
+    for _k, _v in json.load(open(_p)).items():
+        META[_k] = (_v["technique"], _v["text"], _v["note"], _v["ref"])
 
 REPLAY = "./check {id} --replay {{path}}"
 
